@@ -39,7 +39,11 @@ type zzC10Input struct {
 
 func zzC10Pick() zzC10Input {
 	in := zzC10Input{nContainers: 1, addAffinity: nondet.Bool("addNodeAffinity")}
-	switch nondet.String("affinity", "nil", "no-node-affinity", "no-required", "one-term", "term-with-name") {
+	switch nondet.String("affinity", "nil", "no-node-affinity", "no-required", "one-term", "term-with-name", "name-then-plain", "plain-then-name") {
+	case "name-then-plain":
+		in.affinityShape = "name-then-plain"
+	case "plain-then-name":
+		in.affinityShape = "plain-then-name"
 	case "nil":
 		in.affinityShape = "nil"
 	case "no-node-affinity":
@@ -101,6 +105,15 @@ func zzC10Build(in zzC10Input) (*datadoghqv1alpha1.ExtendedDaemonSetReplicaSet, 
 	case "term-with-name":
 		rs.Spec.Template.Spec.Affinity = &corev1.Affinity{NodeAffinity: &corev1.NodeAffinity{RequiredDuringSchedulingIgnoredDuringExecution: &corev1.NodeSelector{
 			NodeSelectorTerms: []corev1.NodeSelectorTerm{{MatchFields: []corev1.NodeSelectorRequirement{{Key: "metadata.name", Operator: corev1.NodeSelectorOpIn, Values: []string{"stale"}}}}}}}}
+	case "name-then-plain", "plain-then-name":
+		named := corev1.NodeSelectorTerm{MatchExpressions: []corev1.NodeSelectorRequirement{other},
+			MatchFields: []corev1.NodeSelectorRequirement{{Key: "metadata.name", Operator: corev1.NodeSelectorOpNotIn, Values: []string{"quarantined"}}}}
+		plain := corev1.NodeSelectorTerm{MatchExpressions: []corev1.NodeSelectorRequirement{other}}
+		terms := []corev1.NodeSelectorTerm{named, plain, plain}
+		if in.affinityShape == "plain-then-name" {
+			terms = []corev1.NodeSelectorTerm{plain, named, plain}
+		}
+		rs.Spec.Template.Spec.Affinity = &corev1.Affinity{NodeAffinity: &corev1.NodeAffinity{RequiredDuringSchedulingIgnoredDuringExecution: &corev1.NodeSelector{NodeSelectorTerms: terms}}}
 	}
 	node := &corev1.Node{ObjectMeta: metav1.ObjectMeta{Name: "node0", Annotations: map[string]string{"unrelated": "x"}}}
 	switch in.annotation {
@@ -210,6 +223,7 @@ func ZZ_C10_create() {
 	nondet.Reach("C10.create.annotation-wins", in.annotation == "r1" && in.setting == "agent")
 	nondet.Reach("C10.create.setting", in.annotation == "" && in.setting == "agent")
 	nondet.Reach("C10.create.pinned-existing-term", in.addAffinity && in.affinityShape == "term-with-name")
+	nondet.Reach("C10.create.pinned-mixed-terms", in.addAffinity && in.affinityShape == "name-then-plain")
 }
 
 // ZZ_C10_roundtrip: a pod just created for given inputs is recognised as up to date for the
